@@ -9,6 +9,7 @@ import z3
 from .engine import (Program, Engine, Int, Agg, EnumV, Ref, Cell, Bytes, VecV, Opaque,
                      Inconclusive, int_binop, bz3, deep_copy)
 from . import models as M
+from . import merkle as MK      # registers the rs_merkle models
 
 VERIF = os.path.dirname(os.path.dirname(os.path.abspath(__file__)))
 WORK = os.path.join(VERIF, ".work")
